@@ -76,6 +76,46 @@ theorem C03_zero_skip_flat_custom (c : FlatCfg) (scope ne nc : Bytes) (v : GoVal
     flatRules c scope ne nc v (r :: rs) st = flatRules c scope ne nc v rs st :=
   flatRules_custom_zero c scope ne nc v r mk rs st hr hk hz
 
+/-- a rule item that is dispatched through a function table (built-in, registered or per-call) or is empty -/
+def tableItem (fns : FnTables) (r : Bytes) : Prop :=
+  r = [] ∨ (∃ run, resolveFn fns (parseValidNameKV r).1 = .builtin run) ∨ (∃ mk, resolveFn fns (parseValidNameKV r).1 = .custom mk)
+
+/-- **an optional value left empty never produces an error, whatever table rules are attached to it,
+in whatever number and order** (`Var` / `Map` / `Url`): the whole rule loop leaves the state unchanged -/
+theorem C03_optional_empty_silent_flat (c : FlatCfg) (scope ne nc : Bytes) (v : GoVal) (rs : List Bytes) (st : WSt)
+    (hz : c.isEmpty v = true) (hrs : ∀ r ∈ rs, tableItem c.fns r) :
+    flatRules c scope ne nc v rs st = pure st := by
+  induction rs generalizing st with
+  | nil => exact flatRules_nil c scope ne nc v st
+  | cons r rs ih =>
+    have hrest : ∀ r ∈ rs, tableItem c.fns r := fun x hx => hrs x (List.mem_cons_of_mem _ hx)
+    rcases hrs r (by simp) with h | ⟨run, h⟩ | ⟨mk, h⟩
+    · subst h; rw [flatRules_empty]; exact ih st hrest
+    · by_cases hr : r = []
+      · subst hr; rw [flatRules_empty]; exact ih st hrest
+      · rw [flatRules_builtin_zero c scope ne nc v r run rs st hr h hz]; exact ih st hrest
+    · by_cases hr : r = []
+      · subst hr; rw [flatRules_empty]; exact ih st hrest
+      · rw [flatRules_custom_zero c scope ne nc v r mk rs st hr h hz]; exact ih st hrest
+
+/-- the same for a struct field whose value is the zero value -/
+theorem C03_optional_empty_silent_struct (ext : Ext) (fns : FnTables) (scope sn fname : Bytes) (v : GoVal)
+    (descend : Bool → Bool → Bytes → WSt → M WSt) (rs : List Bytes) (d : Bool) (st : WSt)
+    (hz : v.isZero = true) (hrs : ∀ r ∈ rs, tableItem fns r) :
+    fieldRules ext fns scope sn fname v descend rs d st = pure st := by
+  induction rs generalizing st with
+  | nil => exact fieldRules_nil ext fns scope sn fname v descend d st
+  | cons r rs ih =>
+    have hrest : ∀ r ∈ rs, tableItem fns r := fun x hx => hrs x (List.mem_cons_of_mem _ hx)
+    rcases hrs r (by simp) with h | ⟨run, h⟩ | ⟨mk, h⟩
+    · subst h; rw [fieldRules_empty]; exact ih st hrest
+    · by_cases hr : r = []
+      · subst hr; rw [fieldRules_empty]; exact ih st hrest
+      · rw [fieldRules_builtin_zero ext fns scope sn fname v descend r run rs d st hr h hz]; exact ih st hrest
+    · by_cases hr : r = []
+      · subst hr; rw [fieldRules_empty]; exact ih st hrest
+      · rw [fieldRules_custom_zero ext fns scope sn fname v descend r mk rs d st hr h hz]; exact ih st hrest
+
 /-- a rule key that is absent from the input contributes one `required` clause per `required` item of
 its rule list, and nothing else; a key that is present contributes nothing here -/
 theorem C03_missing_entry (rm : RM) (present : List Bytes) (nameOf : Bytes → Bytes) :
